@@ -28,6 +28,25 @@ def _present(g, rel, func, pattern, what):
     return True
 
 
+def _ordered(g, rel, func, tokens, what):
+    """the literal tokens occur in this order in the function body (comments removed). Deliberately loose:
+    the differential run ties the behaviour, this only notices when a modelled step disappears or moves."""
+    t = g.text(rel)
+    body = None if t is None else func_body(t, func)
+    if body is None:
+        g.broken.append('%s:%s: function not found (anchor %s)' % (rel, func, what))
+        return False
+    body = re.sub(r'/\*.*?\*/', ' ', body, flags=re.S)
+    pos = 0
+    for tok in tokens:
+        k = body.find(tok, pos)
+        if k < 0:
+            g.broken.append('%s:%s: anchor %s: `%s` not found (in this order)' % (rel, func, what, tok))
+            return False
+        pos = k + len(tok)
+    return True
+
+
 def _tls_init_order(g):
     """1 if sync_pipelining() is called in tls_init() before the 220 is written, 0 if it is not
     called there (or only later).  The other three anchors must be found in the order
@@ -60,11 +79,10 @@ def _tls_init_order(g):
 
 def gen_starttls(g):
     ok_guard = _present(g, ST, 'smtp_starttls', r'if \(xmitstat\.ssl \|\| !xmitstat\.esmtp\)\s*return 1;\s*return tls_init\(\);', 'guard of smtp_starttls')
-    _present(g, NE, 'data_pending', r'^\s*if \(linenlen\) \{\s*return 1;\s*\} else if \(s\) \{\s*int i = SSL_pending\(s\);', 'look-ahead / SSL_pending branches of data_pending')
-    _present(g, NE, 'data_pending', r'if \(i > 0\) \{\s*linenlen = i;\s*return 1;\s*\}\s*return -ECONNRESET;', 'probe result handling of data_pending')
-    _present(g, SY, 'sync_pipelining', r'int i = data_pending\(xmitstat\.ssl\);\s*if \(i == 0\)\s*return;\s*if \(i < 0\)\s*dieerror\(-i\);.*if \(!xmitstat\.esmtp\)\s*hasinput\(1\);.*netwrite\("503 .*wait_for_quit\(\);', 'shape of sync_pipelining')
-    _present(g, SY, 'hasinput', r'int rc = data_pending\(xmitstat\.ssl\);\s*if \(rc <= 0\)\s*return -rc;.*rc = net_read\(1\) \? errno : 0;.*if \(quitloop\)\s*wait_for_quit\(\);\s*else\s*return EBOGUS;', 'shape of hasinput')
-    _present(g, SY, 'wait_for_quit', r'while \(1\) \{.*\(void\) net_read\(1\);.*if \(!strncasecmp\(linein\.s, quitcmd, strlen\(quitcmd\)\)\) \{\s*if \(!linein\.s\[strlen\(quitcmd\)\]\)\s*smtp_quit\(\);\s*\}\s*check_max_bad_commands\(\);', 'shape of wait_for_quit')
+    _ordered(g, NE, 'data_pending', ['if (linenlen)', 'return 1', 'SSL_pending(s)', 'poll(&rfd, 1, 0)', 'read(rfd.fd, lineinn,', 'linenlen = i', 'return 1', 'return -ECONNRESET'], 'steps of data_pending')
+    _ordered(g, SY, 'sync_pipelining', ['data_pending(xmitstat.ssl)', 'dieerror(', 'if (!xmitstat.esmtp)', 'hasinput(1)', 'netwrite("503 ', 'wait_for_quit()'], 'steps of sync_pipelining')
+    _ordered(g, SY, 'hasinput', ['data_pending(xmitstat.ssl)', 'net_read(1)', 'netwrite("550 ', 'if (quitloop)', 'wait_for_quit()', 'return EBOGUS'], 'steps of hasinput')
+    _ordered(g, SY, 'wait_for_quit', ['while (1)', 'net_read(1)', 'strncasecmp(linein.s, quitcmd', 'smtp_quit()', 'check_max_bad_commands()', 'netwrite("503 '], 'steps of wait_for_quit')
     _present(g, CO, 'smtp_ehlo', r'if \(!xmitstat\.ssl && \(\(localport == NULL\) \|\| \(strcmp\(localport, "465"\) != 0\)\)\) \{\s*if \(find_servercert\(localport\) == 0\)\s*msg\[next\+\+\] = "250-STARTTLS\\r\\n";', 'STARTTLS announcement in smtp_ehlo')
     _present(g, CO, 'smtp_noop', r'^\s*sync_pipelining\(\);\s*return netwrite\("250 ', 'sync_pipelining in smtp_noop')
     _present(g, ST, 'tls_err', r'return r \? r : -EDONE;', 'tls_err returns -EDONE')
